@@ -16,6 +16,7 @@
 (*   Region.write_to_genbank and loaded again                                *)
 (*   [before, after : rec (the full record), seq : bases of the full record, *)
 (*    bio_before, bio_after : identity of the Biopython record handed in,    *)
+(*    bio_locs_before, bio_locs_after : identity of its feature locations,   *)
 (*    region : number, ex : [exc, rec, seq, raw, pairs]]                     *)
 (*   Accepted iff ex is the extract Persist!Expected demands and the full    *)
 (*   record (secmet and Biopython form) is unchanged.                        *)
@@ -35,6 +36,7 @@ ExtractEvent(ev) ==
     IF ev.exc # "" THEN {"extract/region_file_is_written:" \o ev.exc}
     ELSE Tag("extract", ExtractFailed(ev.before, ev.seq, ev.region, ev.ex))
          \cup (IF SameRecordFailed(ev.before, ev.after) # {} THEN {"extract/full_record_unchanged"} ELSE {})
+         \cup (IF ev.bio_locs_before # ev.bio_locs_after THEN {"extract/biopython_record_locations_restored"} ELSE {})
          \cup (IF ev.bio_before # ev.bio_after THEN {"extract/biopython_record_unchanged"} ELSE {})
 
 Failed(ev) == CASE ev.op = "roundtrip" -> RoundTripEvent(ev)
